@@ -908,7 +908,9 @@ class APIClient:
                 BluetoothGATTNotifyResponse,
                 timeout,
             )
-        except Exception:
+        except (Exception, asyncio.CancelledError):
+            # Also remove the callback if the caller cancels the
+            # request, or the notify data handler stays registered
             remove_callback()
             raise
 
